@@ -1375,6 +1375,10 @@ func genSeq(r *Rand, tier string) []Input {
 			nx.Mode = "query"
 		}
 		nx.SlotOff, nx.Parent, nx.Proposer = pick(r, uint64(0), 0, 0, 1, 2, 70), pick(r, uint64(0), 0, 8, 9), pick(r, uint64(0), 0, 2)
+		if r.Chance(40, 100) { // the very slot / parent / proposer of an earlier auction
+			e := rounds[r.Intn(len(rounds))]
+			nx.SlotOff, nx.Parent, nx.Proposer = e.SlotOff, e.Parent, e.Proposer
+		}
 		k := key{nx.SlotOff, nx.Parent, nx.Proposer}
 		if (nx.Mode == "query" || len(nx.Relays) == 0) && used[k] { // an auction without relays caches nothing: the earlier entry stays
 
